@@ -152,6 +152,27 @@ func genEdgesNum(r *rng, p gp, kind int) (n int, es [][2]int) {
 			es2[i] = es[j]
 		}
 		es = es2
+	case 5: // fishbone: a spine s0 -> ... -> sD, every s(i+1) with an extra source parent f(i) whose edge comes first
+		// (a staircase of blocks: SinkColoring's placeBlock needs one round per step)
+		D := r.rangeIn(3, max(3, min(12, p.maxN)))
+		n = 2*D + 1
+		for i := 0; i < D; i++ {
+			spine := [2]int{i, i + 1}
+			rib := [2]int{D + 1 + i, i + 1}
+			if r.chance(3, 4) {
+				es = append(es, rib, spine)
+			} else {
+				es = append(es, spine, rib)
+			}
+		}
+		if r.chance(1, 3) { // a few extra edges
+			for x := 0; x < r.rangeIn(1, 3); x++ {
+				a, b := r.intn(D), r.intn(D+1)
+				if a < b {
+					es = append(es, [2]int{a, b})
+				}
+			}
+		}
 	case 4: // dense small cyclic: many antiparallel pairs on one node (reversal order)
 		n = r.rangeIn(2, min(5, p.maxN))
 		m := r.rangeIn(2, p.maxM)
@@ -190,7 +211,7 @@ func adversarialNames(r *rng, n int) []string {
 func genGraph(r *rng, p gp) (edges [][]string, names []string) {
 	kind := p.kind
 	if kind < 0 {
-		kind = []int{0, 0, 0, 1, 1, 2, 3, 3, 4}[r.intn(9)]
+		kind = []int{0, 0, 0, 1, 1, 2, 3, 3, 4, 5}[r.intn(10)]
 	}
 	n, es := genEdgesNum(r, p, kind)
 	if p.comps && r.chance(1, 4) {
